@@ -104,6 +104,29 @@ def isAsciiCompatible (interestingStr : List Nat) (d : Dec) (missingOk : Bool) :
   | .ude => .ok false
   | .notstr | .lookup | .other => if missingOk then .ok false else .error ()
 
+/-! ## `encodings.decode` — the decode every loader uses (PO text, PO escapes, MO strings) -/
+
+/-- what `data.decode(encoding)` did -/
+inductive RawDecode where
+  | text (cs : List Nat)
+  | ude (start stop : Nat)     -- UnicodeDecodeError
+  | unicodeError               -- a bare UnicodeError (idna, punycode)
+  | other                      -- anything else propagates
+  deriving DecidableEq, Repr
+
+inductive Loaded where
+  | text (cs : List Nat)
+  | ude (start stop : Nat)
+  | crash
+  deriving DecidableEq, Repr
+
+/-- `encodings.decode(data, encoding)`: a bare UnicodeError becomes `UnicodeDecodeError(encoding, data, 0, len(data), …)` -/
+def loaderDecode (len : Nat) : RawDecode → Loaded
+  | .text cs => .text cs
+  | .ude s e => .ude s e
+  | .unicodeError => .ude 0 len
+  | .other => .crash
+
 /-! ## the codec search function -/
 
 inductive Search where
